@@ -2,6 +2,7 @@ package tgen
 
 import (
 	"fmt"
+	"strings"
 
 	"pgregory.net/rapid"
 )
@@ -13,6 +14,8 @@ type Options struct {
 	NoErrCalls   bool // no (string, error) calls
 	Ticks        bool // sprinkle tick("id") expressions to trace evaluation
 	Extras       bool // css / script templates and Go blocks between templates
+	// BigLiterals makes some style elements hold 70 KB / 200 KB of static text (one literal run).
+	BigLiterals bool
 	// ScriptExprs adds script elements that place {{ s1 }} bare and inside string literals.
 	ScriptExprs bool
 	// NoTracedClassInCond leaves tick() out of class expressions inside conditional attributes
@@ -145,7 +148,7 @@ func (g *gen) attr(depth int, elem string) Attr {
 		return Attr{Kind: "boolconst", Name: rapid.SampledFrom([]string{"hidden", "disabled", "data-flag", "contenteditable"}).Draw(g.t, "bname")}
 	case 4, 5:
 		e := g.strExprTop(1, true)
-		return Attr{Kind: "expr", Name: rapid.SampledFrom([]string{"title", "id", "data-x", "data-z", "alt", "placeholder"}).Draw(g.t, "ename"), E: &e}
+		return g.spell(Attr{Kind: "expr", Name: rapid.SampledFrom([]string{"title", "id", "data-x", "data-z", "alt", "placeholder"}).Draw(g.t, "ename"), E: &e})
 	case 6:
 		c := g.boolExpr(1)
 		return Attr{Kind: "boolexpr", Name: rapid.SampledFrom([]string{"hidden", "disabled", "checked", "data-on"}).Draw(g.t, "bename"), Cond: &c}
@@ -189,7 +192,7 @@ func (g *gen) attr(depth int, elem string) Attr {
 			}
 			a.Items = append(a.Items, it)
 		}
-		return a
+		return g.spell(a)
 	case 9:
 		if elem == "a" {
 			e := Expr{Kind: "strlit", Str: rapid.SampledFrom([]string{"/p", "https://e.x/?a=1&b=2", "#frag", "/a b"}).Draw(g.t, "url"), Lit: "quoted"}
@@ -200,6 +203,24 @@ func (g *gen) attr(depth int, elem string) Attr {
 		e := g.strExpr(1)
 		return Attr{Kind: "expr", Name: rapid.SampledFrom([]string{"data-k", "title", "value"}).Draw(g.t, "ename2"), E: &e}
 	}
+}
+
+// spell draws the brace spelling of an expression attribute. A (string, error) call must stay
+// alone between the braces (no trailing comma).
+func (g *gen) spell(a Attr) Attr {
+	switch rapid.IntRange(0, 9).Draw(g.t, "attrpad") {
+	case 0:
+		a.Pad = 1
+	case 1:
+		a.Pad = 2
+	case 2:
+		a.Pad = 3
+		if a.E != nil && a.E.Kind == "orerr" {
+			a.Pad = 2
+		}
+	}
+	a.Tight = rapid.IntRange(0, 4).Draw(g.t, "tight") == 0
+	return a
 }
 
 func dedupAttrs(as []Attr) []Attr {
@@ -408,6 +429,9 @@ func (g *gen) node(depth int) Node {
 		n.Kind = rapid.SampledFrom([]string{"style", "script"}).Draw(g.t, "raw")
 		if n.Kind == "style" {
 			n.Text = rapid.SampledFrom([]string{"", ".a { color: red; }", "\n\t.b > p { margin: 0 }\n\t", "/* é */ .c::after { content: \"x\"; }"}).Draw(g.t, "css")
+			if g.o.BigLiterals && rapid.IntRange(0, 3).Draw(g.t, "big") == 0 {
+				n.Text = strings.Repeat(".k > p { margin: 0; content: \"é\\\"\"; }\n", rapid.SampledFrom([]int{1500, 1700, 5000}).Draw(g.t, "bigrep"))
+			}
 		} else {
 			pool := []string{"", "var a = 1;", "\n\t\tif (1 < 2) { console.log(\"é\"); }\n\t", "var s = 'it\\'s'; // c\n\t"}
 			if g.o.ScriptExprs {
